@@ -240,13 +240,15 @@ def st_case(draw, max_commits=10):
             k = draw(st.sampled_from([0, 1, 1, 1, 1, 2, 2, 3]))
             parents = sorted(set(draw(st.lists(st.integers(max(0, i - 5), i - 1), min_size=min(k, i), max_size=min(k, i)))),
                              reverse=True) if k else []
-        kind = draw(st.sampled_from(["match", "match", "super", "none", "none", "body"]))
+        kind = draw(st.sampled_from(["match", "match", "super", "none", "none", "body", "empty_title"]))
         if kind == "match":
             msg = "%s something %d" % (search, i)
         elif kind == "super":
             msg = "pre%s7 other %d" % (search, i)
         elif kind == "body":
             msg = "title %d\n\nsee %s in body" % (i, search)
+        elif kind == "empty_title":
+            msg = "%s\n%s in the body only %d" % (draw(st.sampled_from(["", "  "])), search, i)
         else:
             msg = "unrelated change %d" % i
         commits.append({"parents": parents, "msg": msg, "ts": draw(st.integers(0, 86400 * 29))})
